@@ -23,6 +23,10 @@ def script_class(script):
         return "mixed"
     if toks[0] == "F":
         return "flush-fails"
+    if last.endswith("*40"):
+        return "permanent-failure"
+    if len(toks) >= 7 and toks[-1].startswith("Ewb.") and "S0" in toks:
+        return "alternating-failure"
     if last == "P":
         return "sink-panics"
     if "*" in last:
@@ -89,7 +93,7 @@ def run(r):
         "std's fmt machinery (Formatter adapters, Display of numbers, DebugList/DebugMap) stops at the first fmt::Error — validated by failure injection at every piece, not modelled",
         "user supplied formatters and Object::render implementations propagate the fmt::Error of the writer they are given",
     ]
-    r.regen_tables(["C19_WRITE_SITES", "C19_WRITER_APIS", "C19_WRAPPER_SITES", "C19_SMALL_INT_LIMIT", "C19_UNHOOKED_BODIES", "C19_WRITEWRAPPER_METHODS", "HTML_ESCAPE_TABLE"])
+    r.regen_tables(["C19_WRITE_SITES", "C19_WRITER_APIS", "C19_WRAPPER_SITES", "C19_SMALL_INT_LIMIT", "C19_UNHOOKED_BODIES", "C19_WRITEWRAPPER_METHODS", "C19_TRACKER_UPDATE", "HTML_ESCAPE_TABLE"])
     r.lean_prove("MJ.Props.C19", "MJ/Audit/C19.lean", extra_targets=["drive_c19"])
     exe = r.cargo_build("c19")
     if exe is None:
@@ -228,7 +232,7 @@ def run(r):
                 pid, api = key.split(" ")[0:2]
                 m, o = kv(f[2]), kv(f[3])
                 n_unhooked += 1
-                if api_class(api) in ("ufmt", "ublock"):
+                if api_class(api) in ("ufmt", "ublock", "cfmt"):
                     n_unhooked_user += 1
                 r.count("unhooked " + key, True)
                 judge(r, key, api, clean_res.get((pid, api), "?"), m, o)
@@ -262,7 +266,7 @@ def run(r):
     sf = r.hist["structured_flatten"]
     if model is not None and (sf["same"] < 40 or sf["erased-same"] < 40 or n_routed < 5000):
         r.broken.append("structured/op-log tie degenerate: flatten verdicts %s, routed writes %d" % (dict(sf), n_routed))
-    if n_fail_cases < 1000 or n_ok_cases < 1000 or not {"full", "fmt", "ufmt", "block", "ublock", "fn"} <= apis_with_failures:
+    if n_fail_cases < 1000 or n_ok_cases < 1000 or not {"full", "fmt", "ufmt", "cfmt", "block", "ublock", "fn"} <= apis_with_failures:
         r.broken.append("fault injection degenerate: %d failing / %d clean cases, apis %s" % (n_fail_cases, n_ok_cases, sorted(apis_with_failures)))
 
 
